@@ -3,6 +3,7 @@ import LyModel.XmlTree.Roundtrip
 import LyModel.XmlTree.OpaqTag
 import LyModel.XmlTree.OpaqFaithful
 import LyModel.XmlTree.DataFaithful
+import LyModel.XmlTree.ScopeFaithful
 import LyModel.Generated.JsonTyping
 import LyModel.JsonTree.Refine
 import LyModel.JsonTree.Faithful
@@ -401,6 +402,25 @@ theorem xml_document_faithful_meta (fx : Fixes) (hn : fx.numbered = true) (hr : 
   parseDoc_printDData fx hn hr forest h
 
 open XmlTree in
+/-- **(d′) … and the prefixes inside values mean what the tree says — as part of what the reader returns.**  `XmlDoc.parseDocS` is
+    the independent reader reporting, with every element, its [in-scope namespaces] (XML Infoset 2.2: the element's own
+    declarations on top of the inherited ones — `SpecScope.lean`, the reader of (d) plus that one field; `eraseL` forgets it).  For
+    every forest satisfying `dataOk`: the scoped reader accepts the printed document; what it returns, without the scopes, is
+    `dviewList forest` (the conclusion of (d)); and the scopes it returns satisfy `DScopeOkL forest`: looking a prefix up in the
+    scope reported for an element (`XmlDoc.lookup scope (some prefix)`, the innermost-binding rule) gives
+    * for every annotation of a data node, every prefix inside the annotation's value the namespace of the module the value
+      refers to (`DMeta.valMods`: identityref, instance-identifier annotations);
+    * for every terminal node, every prefix inside its value the namespace of the module (`valMods`);
+    * for every opaque node, every prefix its attribute values and (when it has a value) its own value were parsed with
+      (`val_prefix_data`) the namespace it had there —
+    at every depth.  An identityref or instance-identifier read from the printed document by ANY namespace-aware application
+    denotes the identity / the nodes the tree holds. -/
+theorem xml_document_faithful_meta_scoped (fx : Fixes) (hn : fx.numbered = true) (hr : fx.reserved = true) (forest : List DNode)
+    (h : dataOk fx forest = true) :
+    ∃ es, XmlDoc.parseDocS (printDData fx forest) = some es ∧ XmlDoc.eraseL es = dviewList forest ∧ DScopeOkL forest es :=
+  parseDocS_printDData_scoped fx hn hr forest h
+
+open XmlTree in
 /-- **(e) Prefixes inside values keep their meaning.**  In the start tag of any data node satisfying `tagOkB` (the per-tag part
     of `dataOk`), under any reader environment `env` that resolves like the printer's stack `st`: in the environment the
     independent reader uses for this element — its own declarations on top of the inherited ones, `declared items ++ env` —
@@ -469,6 +489,18 @@ example : XmlDoc.parseDoc (XmlTree.printDData XmlTree.Fixes.all exData) = some
         [.mk [52] [100] [([119], [100, 101, 102, 97, 117, 108, 116], [116, 114, 117, 101]), ([52], [119], [97, 58, 114])] [99, 58, 103] [],
          .mk [111] [122] [([57], [107], [97, 58, 118])] [] [.mk [111] [121] [] [120] []]]]] :=
   xml_document_faithful_meta XmlTree.Fixes.all rfl rfl exData (by decide +kernel)
+
+/-- (d′) instantiated at `exData`: the scope the reader reports for the default leaf `d` (fourth element in document order) resolves
+    `a` to module `1` (needed by its annotation value `a:r`, although the parent `i` had re-bound `a` to module `2`), `c` to module
+    `3` (its own value `c:g`) and `d` to module `4` (inherited from `b`) -/
+example : ∃ es, XmlDoc.parseDocS (XmlTree.printDData XmlTree.Fixes.all exData) = some es ∧
+    XmlDoc.eraseL es = XmlTree.dviewList exData ∧ XmlTree.DScopeOkL exData es :=
+  xml_document_faithful_meta_scoped XmlTree.Fixes.all rfl rfl exData (by decide +kernel)
+
+example : ((XmlDoc.parseDocS (XmlTree.printDData XmlTree.Fixes.all exData)).map fun es =>
+    match es with
+    | [.mk _ _ _ _ [_, .mk _ _ _ _ [d, _] _] _] => [XmlDoc.lookup d.scope (some [97]), XmlDoc.lookup d.scope (some [99]), XmlDoc.lookup d.scope (some [100])]
+    | _ => []) = some [some [49], some [51], some [52]] := by decide +kernel
 
 /-- RFC 7951 sec. 6 as a table: how an instance of each YANG base type is written in JSON -/
 def rfc7951Kind : String → String
